@@ -157,6 +157,40 @@ def array_inst(dirn, t, n, tier):
                 note='%s of %s[%d]: %s' % (dirn, t, n, 'same representation: memcpy branch' if same_repr else 'element-wise conversion loop (loop contract)'))
 
 
+def cellcopy_inst(td, ts, tier):
+    """c = v with both operands in sandbox memory (cond3): the value keeps its meaning in the destination cell's guest type or the
+    store aborts; exactly the destination cell is written.  td != ts: narrowing / other signedness between two guest types"""
+    gd, gsz = SC[td][1], GUEST_SIZE[td]
+    cl = [('cells_are_guest_footprints', '__CPROVER_requires(__CPROVER_rw_ok($this, %d) && sizeof(struct %s) == %d && __CPROVER_r_ok($0, %d) && sizeof(struct %s) == %d)'
+           % (gsz, tv(td), gsz, GUEST_SIZE[ts], tv(ts), GUEST_SIZE[ts]))]
+    if not fl(td) and gd in GLIM:
+        lo, hi = GLIM[gd]
+        cl.append(('noabort_pre', '__CPROVER_requires(g_noabort ==> (MI($0->data) >= %s && MI($0->data) <= %s))' % (mi(lo), mi(hi))))
+    cl += [('value_kept_or_aborted', '__CPROVER_ensures(%s)' % eqv('$this->data', '__CPROVER_old($0->data)', td)),
+           ('returns_self', '__CPROVER_ensures((void *)$ret == (void *)$this)'),
+           ('frame_exactly_the_cell', '__CPROVER_assigns($this->data)')]
+    h = ('  struct %s cell; struct %s v; %s in_v = v.data;\n  _Bool in_noabort; g_noabort = in_noabort; g_backend_nonnull = 0; g_expect_example = 0;\n  $ROOT(&cell, &v);\n'
+         % (tv(td), tv(ts), SC[ts][1]))
+    return Inst('c07_cell_to_cell_%s_from_%s' % (td.replace(' ', '_'), ts.replace(' ', '_')), 'tainted_volatile<%s, vsbx>& c, tainted_volatile<%s, vsbx>& v' % (td, ts), 'c = v;',
+                cl, h, leaves=['dynamic_check'], prop=PROP, root_name='operator=', tier=tier, pre=PRE_GHOST, may_not_compile=(td != ts),
+                note='store from one guest cell (%s) into another (%s): tainted_volatile::operator= cond3, convert_type_non_class<NO_CHANGE>' % (ts, td))
+
+
+def cellcopy_array_inst(t, n, tier):
+    """c = v for two arrays in sandbox memory: exactly the guest image (n guest elements) is copied, element-wise equal"""
+    ptr = t.endswith('*')
+    gs = (4 if ptr else GUEST_SIZE[t]) * n
+    TVA = cs('rlbox::tainted_volatile<%s[%d], rlbox::vsbx>' % (t.replace('*', ' *'), n))
+    cl = [('cells_are_guest_footprints', '__CPROVER_requires(__CPROVER_rw_ok($this, %d) && __CPROVER_r_ok($0, %d) && sizeof(struct %s) == %d && g_w < %d)' % (gs, gs, TVA, gs, n)),
+          ('element_copied', '__CPROVER_ensures($this->data._M_elems[g_w] == __CPROVER_old($0->data._M_elems[g_w]))'),
+          ('frame_exactly_the_cell', '__CPROVER_assigns(__CPROVER_object_whole($this))')]
+    h = ('  struct %s cell, v; unsigned long in_w; g_w = in_w; __CPROVER_assume(in_w < %d);\n'
+         '  g_noabort = 0; g_backend_nonnull = 0; g_expect_example = 0;\n  $ROOT(&cell, &v);\n' % (TVA, n))
+    return Inst('c07_cell_to_cell_array_%s_%d' % (t.replace(' ', '_').replace('*', 'ptr'), n), 'tainted_volatile<%s[%d], vsbx>& c, tainted_volatile<%s[%d], vsbx>& v' % (t, n, t, n), 'c = v;',
+                cl, h, leaves=['dynamic_check'], prop=PROP, root_name='operator=', tier=tier, pre=PRE_GHOST + ' unsigned long g_w;\n' + MEMCPY_OBJ,
+                note='array copy between two guest arrays (%d bytes each): the destination object is exactly the guest image, so a copy sized by the application type fails a bounds obligation' % gs)
+
+
 def array2_inst(dirn, t, n, m, tier):
     """rank-2 arrays T[n][m]: witness element (g_w, g_w2)"""
     app, guest = SC[t]
@@ -209,6 +243,11 @@ def units(tier):
         insts.append(load_inst(t, 'unverified', tier))
         insts.append(load_inst(t, 'copy_and_verify', tier))
     insts.append(ptr_store_footprint(tier))
+    for (td, ts_) in ([('long', 'long'), ('short', 'long long'), ('unsigned int', 'int')] if tier == 'quick' else
+                      [('long', 'long'), ('short', 'long long'), ('unsigned int', 'int'), ('int', 'unsigned long'), ('char', 'int'), ('long', 'long long'), ('unsigned long', 'long'), ('double', 'double'), ('bool', 'bool')]):
+        insts.append(cellcopy_inst(td, ts_, tier))
+    for (t, n) in ([('long', 4), ('int*', 2)] if tier == 'quick' else [('long', 4), ('int*', 2), ('char', 16), ('long long', 2)]):
+        insts.append(cellcopy_array_inst(t, n, tier))
     for (t, n) in ([('long', 4), ('int', 4)] if tier == 'quick' else [('long', 4), ('int', 4), ('char', 16), ('unsigned long', 3), ('short', 8), ('long long', 2)]):
         insts.append(array_inst('store', t, n, tier))
         insts.append(array_inst('load', t, n, tier))
